@@ -27,7 +27,7 @@ FALLBACK = re.compile(r"GEX fallback mechanism was triggered.*modern clients wil
 
 def ref_expected(moduli, style, openssh):
     """Returns (set of acceptable reported sizes (None = no size), fallback_note_size or None)."""
-    srv = fakenet.Server(moduli=moduli, gex_style=style)
+    srv = fakenet.Server(moduli=list(moduli), gex_style=style)
     handed = [srv.choose_modulus(*p) for p in PROBES]
     handed = [h for h in handed if h is not None]
     if not handed:
@@ -50,6 +50,18 @@ def make_cases_stated():
 
 
 NEAR = [1023, 1025, 2040, 2047, 2049, 2056, 3064, 3071, 3073, 3080, 4095]
+
+
+def make_cases_peralg():
+    """Both algorithms offered, each with its own moduli (a server may well keep separate groups)."""
+    sets = [[2048], [3072], [4096], [2048, 3072], [2048, 4096], [1024, 2048], [], [8192], [1536, 6144]]
+    for a in sets:
+        for b in sets:
+            if a == b:
+                continue
+            for style in ('strict', 'roundup', 'openssh'):
+                for banner in ('openssh', 'dropbear'):
+                    yield {'moduli': a, 'moduli256': b, 'style': style, 'algs': 'both', 'banner': banner, 'family': 'peralg'}
 
 
 def make_cases_extension():
@@ -110,11 +122,14 @@ def _check_notes(alg, size, notes, fallback_size, fails, tag):
 def eval_case(case):
     algs = ALGSETS[case['algs']]
     spec = {'banner': BANNERS[case['banner']], 'kex': ['curve25519-sha256'] + algs, 'hostkeys': {'ssh-ed25519': {'t': 'ed25519'}}, 'moduli': case['moduli'], 'gex_style': case['style']}
+    if case.get('moduli256') is not None:
+        spec['moduli_by_alg'] = {SHA1: case['moduli'], SHA256: case['moduli256']}
     if case.get('fault'):
         spec['faults'] = [case['fault']]
     openssh = case['banner'] == 'openssh'
     fails = []
     want, fb = ref_expected(case['moduli'], case['style'], openssh)
+    want_by = {SHA1: (want, fb), SHA256: ref_expected(case['moduli256'], case['style'], openssh) if case.get('moduli256') is not None else (want, fb)}
     faulty = bool(case.get('fault'))
     renderings = case.get('renderings', ['json', 'text'])
     seen = {}
@@ -157,6 +172,7 @@ def eval_case(case):
                 fails.append(['gex-alg-missing-from-report', '%s %s' % (rend, alg)])
                 continue
             size, notes = got[alg]
+            want, fb = want_by[alg]
             seen.setdefault(alg, {})[rend] = size
             reqs = [tuple(e[2]) for c in per_alg.get(alg, []) for e in srv.log if e[0] == c.idx and e[1] == 'gex_request']
             delivered = []
@@ -219,6 +235,8 @@ def run(ctx):
         ctx.rng.shuffle(faults)
         faults = faults[:800]
     ctx.map(faults)
+    pa = list(make_cases_peralg())
+    ctx.map(pa)
     ext = list(make_cases_extension())
     if ctx.quick:
         head, tail = ext[:4 * len(NEAR)], ext[4 * len(NEAR):]
